@@ -218,7 +218,11 @@ class SimDevice:
                 else:
                     rep = head + bytes([ENOENT])
             elif cmd == 4:
-                if ok and p.get('persistent'):
+                if ok and getattr(self, 'state_enoent_budget', {}).get(idx, 0) > 0:
+                    # the firmware cannot answer this one (e.g. storage busy): "no such entry"
+                    self.state_enoent_budget[idx] -= 1
+                    rep = head + bytes([ENOENT])
+                elif ok and p.get('persistent'):
                     if self.stored[idx] is None:
                         rep = head + b'\0' + self.pack_param(idx, p.get('default', 0))
                     else:
